@@ -301,17 +301,22 @@ Arguments log_of {Rq Res}. Arguments trace {Rq}. Arguments was_invoked {Rq Res}.
      - "context.DeadlineExceeded" the caller's own deadline fired
      - "io.ErrUnexpectedEOF"      the trunk ended in the middle of a multiplexer frame:
                                   mux.reader wraps io.ReadFull's error, which ttrpc's
-                                  filterCloseErr does not rewrite to ErrClosed
+                                  filterCloseErr does not rewrite to ErrClosed; it reaches the
+                                  caller when ttrpc's dispatch select picks the stream's close
+                                  rather than the client's (seen about once in 10^4 mid-frame cuts;
+                                  findings/C07-unexpected-eof-not-fatal.md)
      - "codes.DeadlineExceeded"   the plugin's ttrpc server answered with status
                                   DeadlineExceeded because the handler's context (which
-                                  carries the same time-out) expired — the late answer
-                                  of a plugin that did not answer within the time-out *)
+                                  carries the same time-out) expired, and that answer beat the
+                                  caller's own timer (5-15 % of the trials with a handler that
+                                  returns its context's error; findings/C07-deadline-status-not-fatal.md) *)
 Definition fault_error_classes : list string :=
   ["ttrpc.ErrClosed"; "ttrpc.ErrServerClosed"; "ttrpc.ErrProtocol"; "context.DeadlineExceeded";
    "io.ErrUnexpectedEOF"; "codes.DeadlineExceeded"].
 
-(* the classes of that list which isFatalError does not name: each makes a plugin's
-   failure fail the request (classify gives Veto) instead of dropping the plugin *)
+(* the classes of that list which isFatalError does not name: each would make a plugin's
+   failure fail the request (classify gives Veto) instead of dropping the plugin; empty since the
+   two repairs (C07_fault_gap_of_this_tree) *)
 Definition fault_gap : list string := filter (fun c => negb (is_fatal c)) fault_error_classes.
 
 (* the four classes isFatalError's comment and DESIGN name *)
@@ -393,7 +398,17 @@ Definition structure_ok : bool :=
                       String.eqb c "r.sortPlugins()" && String.eqb d "r.Unlock()"
     | _ => false
     end) &&
-   configure_zero_is_all && configure_refuses_extra && stub_update_guard)%bool.
+   configure_zero_is_all && configure_refuses_extra && stub_update_guard &&
+   (* plugin.UpdateContainers hands exactly the request's list to updateContainers and returns its
+      failed list and error; Stub.UpdateContainers tests for a missing runtime first *)
+   existsb (String.eqb "failed, err := p.r.updateContainers(ctx, req.Update)") plugin_update_body &&
+   String.eqb plugin_update_return "return &UpdateContainersResponse{ Failed: failed, }, err" &&
+   (match stub_update_body with g :: _ => String.eqb g "if stub.runtime == nil" | [] => false end) &&
+   (* removeClosedPlugins keeps the plugins that are not closed *)
+   (match rev remove_closed_body with l :: _ => String.eqb l "r.plugins = active" | [] => false end) &&
+   (* CheckPluginIndex: two bytes, each within '0'..'9' *)
+   Nat.eqb index_len 2 &&
+   String.eqb index_check_cond "!('0' <= idx[0] && idx[0] <= '9') || !('0' <= idx[1] && idx[1] <= '9')")%bool.
 
 (* ------------------------------------------------------------------ *)
 (** * Unsolicited updates (plugin.UpdateContainers, Adaptation.updateContainers,
